@@ -5,6 +5,9 @@
 //! observation per line on stdout, in exactly the text format of the Lean driver
 //! (/verif/lean/Driver.lean) so that the two streams can be compared line by line.
 
+#[path = "oplang.rs"]
+pub mod oplang;
+
 use libmctp::base_packet::{MCTPMessageBodyHeader, MCTPTransportHeader, MessageType};
 use libmctp::control_packet::{
     AllocateEndpointIDOperation, CommandCode, CompletionCode, MCTPControlMessageHeader,
@@ -54,7 +57,7 @@ fn classify(msg: &str) -> &'static str {
     }
 }
 
-fn install_hook() {
+pub fn install_hook() {
     std::panic::set_hook(Box::new(|info| {
         let msg = if let Some(s) = info.payload().downcast_ref::<&str>() {
             s.to_string()
@@ -220,7 +223,7 @@ fn parse_vendors(s: &str) -> Option<Vec<VendorIDFormat>> {
     s.split(',').map(parse_vendor).collect()
 }
 
-struct Exec {
+pub struct Exec {
     ctxs: HashMap<String, MCTPSMBusContext<'static>>,
 }
 
@@ -567,7 +570,13 @@ fn proc_obs(c: &MCTPSMBusContext, p: &[u8], buf0: &[u8]) -> String {
 }
 
 impl Exec {
-    fn handle(&mut self, line: &str) -> String {
+    pub fn new() -> Self {
+        Exec {
+            ctxs: HashMap::new(),
+        }
+    }
+
+    pub fn handle(&mut self, line: &str) -> String {
         let toks: Vec<&str> = line.split_whitespace().collect();
         // `repeat <count> <op …>`: the same operation again and again on the same state; every answer
         // must equal the first (executor-only: anything that depends on the number of calls so far)
@@ -1068,7 +1077,32 @@ impl Exec {
     }
 }
 
+/// `mctp-exec --render <dir>`: every file of a fuzzer corpus as operation lines (no execution)
+fn render_dir(dir: &str) {
+    let mut names: Vec<_> = match std::fs::read_dir(dir) {
+        Ok(rd) => rd.filter_map(|e| e.ok()).map(|e| e.path()).filter(|p| p.is_file()).collect(),
+        Err(_) => return,
+    };
+    names.sort();
+    let stdout = std::io::stdout();
+    let mut out = BufWriter::with_capacity(1 << 20, stdout.lock());
+    for (i, p) in names.iter().enumerate() {
+        if let Ok(data) = std::fs::read(p) {
+            for l in oplang::render(&data, &format!("z{}", i)) {
+                let _ = writeln!(out, "{}", l);
+            }
+        }
+    }
+    let _ = out.flush();
+}
+
+#[allow(dead_code)]
 fn main() {
+    let args: Vec<String> = std::env::args().collect();
+    if args.len() == 3 && args[1] == "--render" {
+        render_dir(&args[2]);
+        return;
+    }
     install_hook();
     let stdin = std::io::stdin();
     let stdout = std::io::stdout();
